@@ -225,6 +225,8 @@ def h_settings(client):
         h2h.Adapter.set_remote_initial_window(me, old)
         f = hf.SettingsFrame(0)
         f.settings = {4: new}
+        # ... in the company of any other setting (MAX_FRAME_SIZE is left to C02)
+        h2h.sym_companion(f.settings, role_client=not client, exclude=(5,))
         out = models.Out(me)
         d = new - old
         over = s_or(s_lt(INT31, S1 + d), s_lt(INT31, S3 + d))
@@ -245,7 +247,11 @@ def h_settings(client):
                   'local-after-settings', None)
             # a stream created from now on starts with the new initial size
             if client:
-                me.send_headers(5, h2h.REQ_POST)
+                try:
+                    me.send_headers(5, h2h.REQ_POST)
+                except h2.exceptions.TooManyStreamsError:
+                    note('mcs')     # a companion MAX_CONCURRENT_STREAMS below 3 (C10)
+                    return
                 check(me.streams[5].outbound_flow_control_window == new, 'new-stream-window',
                       None)
                 check(me.local_flow_control_window(5) == s_min(W, new), 'new-stream-local',
@@ -271,6 +277,7 @@ def h_settings_reserved():
         h2h.Adapter.set_stream_out_window(s, 1, 0)
         f = hf.SettingsFrame(0)
         f.settings = {4: new}
+        h2h.sym_companion(f.settings, role_client=True, exclude=(5,))
         d = new - old
         try:
             h2h.deliver(s, [f])
